@@ -30,7 +30,8 @@ CLS = {"Geometry": "CGeometry", "Characteristics": "CCharacteristics", "Environm
        "APDCharacteristics": "CAPDCharacteristics"}
 # "obsrun": the value is one point of a REAL observation (pyxel.run_mode on an Observation that sweeps the field,
 # sequentially or with dask); accepted = the run completes.  It is the sweep path of the model.
-PATH = {"ctor": "PCtor", "yaml": "PYaml", "attr": "PAttr", "sweep": "PSweep", "obsrun": "PSweep"}
+PATH = {"ctor": "PCtor", "yaml": "PYaml", "attr": "PAttr", "sweep": "PSweep", "obsrun": "PSweep",
+        "fromdict": "PFromDict"}
 
 # used ONLY to aim the generator and to classify a failing value; the decision is taken inside Coq against
 # Model.Config.documented.  (cls, field, lo, hi, integer-ish, sequence length)
@@ -226,6 +227,15 @@ def gen_guard_cases(ctx: Ctx, n_random: int, n_obsrun: int = 6):
                 if path == "yaml" and (x["t"] != "inf" or small):
                     continue  # a YAML document cannot carry a numpy scalar
                 cases.append(dict(k="guard", cls=cls, field=field, path=path, det=r.choice(dets), x=x))
+        # <Class>.from_dict: python numbers, NaN, None and sequences (what a file can hold)
+        if cls != "Environment":
+            seen = set()
+            for x in gen_values(r, lo, hi, integer, seqlen, small, max(1, n_random // 2)):
+                key = json.dumps(x, sort_keys=True)
+                if key in seen or x["t"] == "inf":
+                    continue
+                seen.add(key)
+                cases.append(dict(k="guard", cls=cls, field=field, path="fromdict", det=r.choice(dets), x=x))
         # real observation runs over the field: a few values per field, sequential and dask
         plain_vals = [x for x in gen_values(r, lo, hi, integer, seqlen, small, 2)
                       if x["t"] in ("int", "float", "nan") or (x["t"] == "seq" and seqlen is not None)]
@@ -456,6 +466,60 @@ def keys_violation(c, o) -> Violation:
                      what=f"document with {nm} running-mode key(s) ({fm} filled) and {nd} detector key(s) ({fd} filled) "
                           f"[{show_doc(c)}]: loaded={o.get('loaded')} used={o.get('used')}"
                           + (f" ({o.get('exc')}: {o.get('msg')})" if not o.get("loaded") else ""), sig=sig)
+
+
+def gen_direct_cases(ctx: Ctx):
+    """every set of running-mode / detector objects handed to Configuration(...) directly"""
+    r = ctx.rng("direct")
+    cases = []
+    for m in range(8):
+        for d in range(16):
+            given = [MODES[i] for i in range(3) if m >> i & 1] + [DETS[i] for i in range(4) if d >> i & 1]
+            r.shuffle(given)
+            cases.append(dict(k="direct", given=given))
+    return cases
+
+
+def emit_direct_file(pairs) -> str:
+    rows = [f"CCase {core.clist(core.cstr(k) for k in c['given'])} {core.cbool(o['accepted'])}" for c, o in pairs]
+    body = ";\n  ".join(rows)
+    return (HEAD + f"Definition cases : list ccase := [\n  {body}\n].\n"
+            "Eval vm_compute in c_mismatches src_checks_built cases.\nEval vm_compute in c_violations cases.\n")
+
+
+def direct_violation(c, o) -> Violation:
+    nm = sum(k in MODES for k in c["given"])
+    nd = sum(k in DETS for k in c["given"])
+    return Violation(clause="exactly_one_built", case=c, observed=o,
+                     expected="Configuration(...) takes the objects iff exactly one running mode and exactly one detector "
+                              "are given, and then holds exactly these",
+                     what=f"Configuration(pipeline, {', '.join(c['given'])}) with {nm} running mode(s) and {nd} detector(s): "
+                          f"{'accepted' if o.get('accepted') else 'refused'}"
+                          + ("" if o.get("holds_given", True) else " but does not hold the given objects"),
+                     sig=dict(clause="exactly_one_built", modes=min(nm, 2), detectors=min(nd, 2),
+                              accepted=bool(o.get("accepted"))))
+
+
+def run_direct(ctx: Ctx, cases):
+    obs = run_driver(ctx, cases, workers=8)
+    pairs = []
+    for c, o in zip(cases, obs):
+        if "accepted" not in o:
+            ctx.broken.append(Broken("correspondence", "direct Configuration(...) driver: unexpected exception / crash",
+                                     str(o)[:400], c))
+            continue
+        pairs.append((c, o))
+        if o["accepted"] and not o.get("holds_given", True):
+            ctx.violations.append(direct_violation(c, o))
+    ev = eval_files(ctx, {"c_000": emit_direct_file(pairs)})["c_000"]
+    mism, viol = [], []
+    if ev is not None:
+        mism = [pairs[i] for i in core.parse_int_list(ev[0])]
+        viol = [pairs[i] for i in core.parse_int_list(ev[1])]
+    for c, o in pairs:
+        ctx.count("evaluations")
+        ctx.count("direct_constructions")
+    return pairs, mism, viol
 
 
 # ------------------------------------------------------------------------------------------ settings
@@ -1454,7 +1518,7 @@ def run(ctx: Ctx):
     ctx.log(f"proof leg done; {len(gcases)} guard cases")
     gp, gm, gv = run_guards(ctx, gcases)
     ctx.log("guard leg done")
-    for c, o in gv:
+    for c, o in sorted(gv, key=lambda co: len(show_value(co[0]["x"]))):      # the simplest failing value first
         ctx.violations.append(guard_violation(c, o))
     for c, o in gm:
         ctx.broken.append(Broken("correspondence", "regenerated guard vs implementation",
@@ -1468,6 +1532,13 @@ def run(ctx: Ctx):
         ctx.broken.append(Broken("correspondence", "regenerated exactly-one checks vs pyxel.load",
                                  f"document [{show_doc(c)}]: loaded={o.get('loaded')} used={o.get('used')}; the "
                                  f"translated loader says otherwise", dict(case=c, observed=o)))
+    cp, cm, cv = run_direct(ctx, gen_direct_cases(ctx))
+    for c, o in cv:
+        ctx.violations.append(direct_violation(c, o))
+    for c, o in cm:
+        ctx.broken.append(Broken("correspondence", "regenerated Configuration.__post_init__ checks vs Configuration(...)",
+                                 f"objects {c['given']}: accepted={o.get('accepted')}; the translated checks say otherwise",
+                                 dict(case=c, observed=o)))
     ctx.log("key leg done")
     scases = gen_settings_cases(ctx, ctx.budget(48, 240), ctx.budget(10, 40))
     sp, sbad = run_settings(ctx, scases)
@@ -1486,7 +1557,7 @@ def run(ctx: Ctx):
 
     seen = {json.dumps([c["cls"], c["field"], c["path"], c["x"]], sort_keys=True) for c, _ in gp
             if c["x"]["t"] != "none"}
-    ctx.cov["distinct_nontrivial"] = len(seen) + len(kp) + len(sp)
+    ctx.cov["distinct_nontrivial"] = len(seen) + len(kp) + len(cp) + len(sp)
     ctx.cov["rule"] = ("guard cases: distinct (field, path, value) with a value other than None (corpus of the formerly "
                        "failing inputs first; boundaries +-1 ulp, +-1, x2, x10, 0, -0, subnormal, 1e308, NaN, +-inf, integers "
                        "around the bounds, random; the same numbers carried by numpy int64/int32/float32/float64 scalars; "
@@ -1499,8 +1570,8 @@ def run(ctx: Ctx):
                        "assignments to both groups; settings: distinct generated documents (4 detector types x 3 modes, "
                        "optional keys present/absent, range expressions, times from a file, outputs, algorithm parameters, "
                        "probes and real models in the pipeline), each with 8 derived readouts and 2 sweep points")
-    ctx.cov["traces_validated_against_impl"] = len(gp) + len(kp) + len(sp)
-    ctx.cov["disagreements_checked"] = len(gm) + len(km)
+    ctx.cov["traces_validated_against_impl"] = len(gp) + len(kp) + len(cp) + len(sp)
+    ctx.cov["disagreements_checked"] = len(gm) + len(km) + len(cm)
     ctx.cov["exhaustive"] = {"top_level_key_subsets": 128, "mode_section_state_assignments": 64,
                              "detector_section_state_assignments": 256}
     if ctx.tier == "thorough":
@@ -1574,6 +1645,13 @@ def replay(ctx: Ctx, rp: dict) -> int:
         print("implementation now returns:", o)
         ok, ev, se = core.coq_eval(ctx, "replay", emit_keys_file([(case, o)]))
         bad = ok and core.parse_int_list(ev[1]) != []
+    elif k == "direct":
+        o = core.run_driver(ctx, "c12", [case], workers=1)[0]
+        print("implementation now returns:", o)
+        if "accepted" not in o:
+            return 1
+        ok, ev, se = core.coq_eval(ctx, "replay", emit_direct_file([(case, o)]))
+        bad = (ok and core.parse_int_list(ev[1]) != []) or (o["accepted"] and not o.get("holds_given", True))
     elif k == "sweeprun":
         o = core.run_driver(ctx, "c12", [case], workers=1)[0]
         print("implementation now returns:", json.dumps(o)[:1500])
